@@ -180,6 +180,7 @@ def run(prop, tier, seed):
         r = tlc_or_die("TraceJson", cfg="TraceJson_%s.cfg" % prop, env={"TRACE_FILE": p}, timeout=7200)
         c.add_tlc("TraceJson %s" % prop, r)
         # design facts tying the schema's value names to the library's published wording (exceptions listed exactly)
+        c.add_tlc("MC_Json: the reference documents of JsonDoc.tla (every metric x value on a sparse and a dense background, 4 variants) satisfy the schema predicates and the C11 rules", tlc_or_die("MC_Json", workers=4, timeout=1800))
         c.add_tlc("MC_Internals: JSON value names = upper-cased descriptions up to the listed exceptions; display tables cover the standards' tables; lookup domain", tlc_or_die("MC_Internals", workers=1, timeout=600))
         if r.distinct != 2 * len(ev):
             raise MachineryError("TLC judged %d states for %d events" % (r.distinct, len(ev)))
